@@ -50,7 +50,7 @@ CtrlChar(k) == IF k % 4 = 1 THEN 0 ELSE IF k % 4 = 2 THEN 133 ELSE IF k % 4 = 3 
 \* Extras: further variations used by the normalize / fingerprint machines (C03-C06);
 \* NoExtras leaves the URL as the C02 machine spells it.
 NoExtras == [schf |-> 0, ui |-> 0, sub |-> <<>>, ampdash |-> FALSE, tsx |-> FALSE, idx |-> <<>>, pf |-> <<>>,
-             ins |-> <<>>, perm |-> <<>>, ampent |-> FALSE, port |-> <<>>, upc |-> {}, sfx |-> <<>>, sfk |-> 0]
+             ins |-> <<>>, perm |-> <<>>, ampent |-> FALSE, port |-> <<>>, upc |-> {}, sfx |-> <<>>, sfk |-> 0, ampouter |-> FALSE]
 \* insert the (pos, text) pairs of ins into the rendered item list (pos = number of items before it)
 RECURSIVE InsertAll(_, _)
 InsertAll(items, ins) == IF ins = <<>> THEN items
@@ -69,11 +69,15 @@ RenderWith(u, x) ==
       hostl == IF x.sfx = <<>> THEN B.host ELSE SubSeq(B.host, 1, Len(B.host) - x.sfk) \o x.sfx
       labels == [i \in 1..Len(hostl) |-> RenderLabel(hostl[i], i \in u.pu /\ i <= Len(B.host) - x.sfk, u.hc)]
       labels2 == IF x.ampdash THEN <<CaseAscii(<<97,109,112,45>>, u.hc) \o labels[1]>> \o SubSeq(labels, 2, Len(labels)) ELSE labels
-      host == JoinWith([i \in 1..Len(x.sub) |-> CaseAscii(x.sub[i], u.hc)] \o labels2, 46)
+      \* x.ampouter: the 'amp-' prefix sits on the outermost added label ('amp-www.example.com')
+      subl == [i \in 1..Len(x.sub) |-> CaseAscii((IF i = 1 /\ x.ampouter THEN <<97,109,112,45>> ELSE <<>>) \o x.sub[i], u.hc)]
+      host == JoinWith(subl \o labels2, 46)
       port == IF x.port # <<>> THEN <<58>> \o x.port
               ELSE IF B.port # <<>> THEN <<58>> \o B.port
               ELSE IF u.dp THEN (IF (B.scheme = <<104,116,116,112>>) = (x.schf # 1) THEN <<58,56,48>> ELSE <<58,52,52,51>>) ELSE <<>>
-      dot(k) == IF k = 0 THEN <<47>> ELSE IF k = 1 THEN <<47,46,47>> ELSE IF k = 2 THEN <<47,120,47,46,46,47>> ELSE <<47,47>>
+      \* 4, 5: the dot segments written with escapes ('/%2E/', '/x/%2e%2E/')
+      dot(k) == IF k = 0 THEN <<47>> ELSE IF k = 1 THEN <<47,46,47>> ELSE IF k = 2 THEN <<47,120,47,46,46,47>> ELSE IF k = 3 THEN <<47,47>>
+                ELSE IF k = 4 THEN <<47,37,50,69,47>> ELSE <<47,120,47,37,50,101,37,50,69,47>>
       rootForm(k) == IF k = 0 THEN <<>> ELSE IF k = 1 THEN <<47>> ELSE IF k = 2 THEN <<47,120,47,46,46>>
                      ELSE IF k = 3 THEN <<47,46,47>> ELSE <<47,120,47,46,46,47>>      \* "" / /x/.. /./ /x/../
       trailing == IF x.tsx THEN ~B.trailing ELSE B.trailing
@@ -117,7 +121,7 @@ Succ(u) ==
   \cup UNION {{[kind |-> r[1], u |-> [u EXCEPT !.items[i] = <<r[2], u.items[i][2], u.items[i][3]>>]] : r \in TextRewrites("qitem", u.items[i][1])} : i \in 1..Len(u.items)}
   \cup UNION {{[kind |-> r[1], u |-> [u EXCEPT !.items[i] = <<u.items[i][1], u.items[i][2], r[2]>>]] : r \in TextRewrites("qitem", u.items[i][3])} : i \in 1..Len(u.items)}
   \cup {[kind |-> r[1], u |-> [u EXCEPT !.frag = r[2]]] : r \in TextRewrites("frag", u.frag)}
-  \cup {[kind |-> "PathSegments", u |-> [u EXCEPT !.dots[i] = m]] : i \in 1..Len(u.segs), m \in {0, 1, 2, 3}}
+  \cup {[kind |-> "PathSegments", u |-> [u EXCEPT !.dots[i] = m]] : i \in 1..Len(u.segs), m \in {0, 1, 2, 3, 4, 5}}
   \cup (IF u.segs = <<>> THEN {[kind |-> "PathSegments", u |-> [u EXCEPT !.root = m]] : m \in {0, 1, 2, 3, 4} \ {u.root}} ELSE {})
   \cup (IF u.items = <<>> THEN {[kind |-> "EmptyQuery", u |-> [u EXCEPT !.eq = ~u.eq]]} ELSE {})
   \cup (IF ~B.hasfrag THEN {[kind |-> "EmptyFragment", u |-> [u EXCEPT !.ef = ~u.ef]]} ELSE {})
